@@ -494,7 +494,7 @@ func findNonSpace(r []rune, i, end int) int {
 // findEnd finds end of the current symbol (position of next #, space, or line
 // end), returning end if not found.
 func findEnd(r []rune, i, end int) int {
-	for c := grab(r, i+1, end); i < end && c != '#' && !unicode.IsSpace(c) && !unicode.IsControl(c); i++ {
+	for c := grab(r, i, end); i < end && c != '#' && !unicode.IsSpace(c) && !unicode.IsControl(c); i++ {
 		c = grab(r, i+1, end)
 	}
 
@@ -533,7 +533,7 @@ func decodeKey(seq []rune, pos, end int) (string, int, error) {
 	// seek end of sequence
 	start := pos
 
-	for c := grab(seq, pos+1, end); pos < end && c != ':' && c != '#' && !unicode.IsSpace(c) && !unicode.IsControl(c); pos++ {
+	for c := grab(seq, pos, end); pos < end && c != ':' && c != '#' && !unicode.IsSpace(c) && !unicode.IsControl(c); pos++ {
 		c = grab(seq, pos+1, end)
 	}
 
